@@ -466,6 +466,31 @@ func cmdCheck(args []string) {
 			}
 		}
 	}
+	// contracts on functions that /repo does not declare (any more): nothing can be proved about them
+	{
+		var ks []string
+		for k := range g.Spec.Contracts {
+			ks = append(ks, k)
+		}
+		sort.Strings(ks)
+		for _, k := range ks {
+			c := g.Spec.Contracts[k]
+			if c.Trusted || c.External || !strings.HasPrefix(k, repoModule) || g.Funcs[k] != nil {
+				continue
+			}
+			rel := *prop == ""
+			for _, t := range c.Tags {
+				if t == *prop {
+					rel = true
+				}
+			}
+			if rel && (*only == "" || strings.Contains(k, *only)) {
+				line := fmt.Sprintf("UNDECIDED property=%s function=%s clause=%s: the contract names a function that /repo does not declare", *prop, shortKey(k), c.Pos)
+				undecided = append(undecided, line)
+				fmt.Println(line)
+			}
+		}
+	}
 	var genErrNames []string
 	for k, e := range genErrs {
 		fmt.Printf("GENERROR %s: %v\n", shortKey(k), e)
